@@ -449,31 +449,98 @@ def run_same_name(order, res):
   res.outcome('same_name')
 
 
+class EqAll:
+  """A caller value that compares equal to everything (unittest.mock.ANY, matcher / wildcard objects)."""
+  __hash__ = None
+
+  def __eq__(self, other):
+    return True
+
+  def __ne__(self, other):
+    return False
+
+
+class EqAmbiguous:
+  """A caller value whose comparisons have no truth value (array-like)."""
+  __hash__ = None
+
+  def __eq__(self, other):
+    return self
+
+  def __bool__(self):
+    raise ValueError('The truth value of an array with more than one element is ambiguous')
+
+
+_DYN = []
+
+
+def run_dyn_rereg(evaluate, ambient, res):
+  """Dynamic registration: a scoped reference to a class keeps its scope when the class is registered again (which
+  configuring one of its methods does)."""
+  import os, sys, tempfile, atexit, shutil  # pylint: disable=import-outside-toplevel,multiple-imports
+  if not _DYN:
+    d = tempfile.mkdtemp(prefix='c04_')
+    with open(os.path.join(d, 'c04dyn.py'), 'w') as fh:
+      fh.write("class Worker:\n  def __init__(self, tag='dflt'):\n    self.tag = tag\n  def run(self, speed=None):\n    return speed\n\n"
+               "def consume(p=None):\n  return p\n")
+    sys.path.insert(0, d)
+    atexit.register(lambda: shutil.rmtree(d, ignore_errors=True))
+    _DYN.append(d)
+  desc = ['dyn_rereg', evaluate, ambient]
+  harness.hard_reset()
+  res.case(tuple(desc), True)
+  head = 'from __gin__ import dynamic_registration\nimport c04dyn as m\n'
+  import contextlib  # pylint: disable=import-outside-toplevel
+
+  def observe():
+    import c04dyn  # pylint: disable=import-outside-toplevel
+    with (gin.config_scope(ambient) if ambient else contextlib.nullcontext()):
+      v = gin.get_configurable(c04dyn.consume)()
+      inst = v if evaluate else v()
+    return inst.tag, inst.run()
+  try:
+    gin.parse_config(head + "m.consume.p = @blue/m.Worker%s\nblue/m.Worker.tag = 'blue'\nm.Worker.tag = 'unscoped'\n"
+                     "red/m.Worker.tag = 'red'\n" % ('()' if evaluate else ''))
+    first = observe()
+    gin.parse_config(head + "m.Worker.run.speed = 3\n")
+    second = observe()
+  except Exception as e:  # pylint: disable=broad-except
+    res.violation('call_raised', '%r: %r' % (desc, e), desc)
+    return
+  if first != ('blue', None) or second != ('blue', 3):
+    res.violation('reference_scope', '%r: the reference @blue/m.Worker ran with (tag, speed) = %r before and %r after '
+                  'a method of the class was configured; expected (blue, None) and (blue, 3)' % (desc, first, second), desc)
+  else:
+    res.w('scoped_reference_survives_reregistration')
+  res.outcome('dyn_rereg')
+
+
 def run_override_variants(cname, res):
-  """Caller overrides on consumers with other signature shapes (signature-level REQUIRED, keyword-only)."""
-  fn = {'strict': STRICT, 'kwonly': KWONLY}[cname]
+  """Caller overrides on consumers with other signature shapes (signature-level REQUIRED, keyword-only), with caller
+  values of unusual equality."""
+  fn = {'strict': STRICT, 'kwonly': KWONLY, 'plain': CONSUMER}[cname]
   sel = 'c04.' + fn.__name__
   for text, n_eval in (('@c04.g()', 1), ("{'k': [(@s/c04.g(), 1)], 'j': @c04.g()}", 2), ('[%mg, %mg]', 2)):
-    for how in ('none', 'kw', 'kw_none', 'pos'):
-      if how == 'pos' and cname == 'kwonly':
+    for how in ('none', 'kw', 'kw_none', 'pos', 'kw_eqall', 'pos_eqall', 'kw_ambiguous', 'pos_ambiguous'):
+      if how.startswith('pos') and cname == 'kwonly':
         continue
       desc = ['override', cname, text, how]
       harness.hard_reset()
       del CALLS[:]
       gin.parse_config("mg = @c04.g()\nc04.g.tag = 'T'\n%s.p = %s" % (sel, text))
       res.case(tuple(desc), True)
-      sentinel = ['caller']
+      sentinel = EqAll() if how.endswith('eqall') else EqAmbiguous() if how.endswith('ambiguous') else ['caller']
       try:
         got = {'none': lambda: fn(), 'kw': lambda: fn(p=sentinel), 'kw_none': lambda: fn(p=None),
-               'pos': lambda: fn(sentinel)}[how]()
+               'pos': lambda: fn(sentinel)}[how.split('_')[0] if how not in ('none', 'kw_none') else how]()
       except Exception as e:  # pylint: disable=broad-except
         res.violation('call_raised', '%r: %r' % (desc, e), desc)
         continue
       want = n_eval if how == 'none' else 0
       if len(CALLS) != want:
-        res.violation('evaluated_despite_caller_%s' % ('positional' if how == 'pos' else 'keyword') if how != 'none'
+        res.violation('evaluated_despite_caller_%s' % ('positional' if how.startswith('pos') else 'keyword') if how != 'none'
                       else 'eval_count', '%r: g evaluated %d time(s), expected %d' % (desc, len(CALLS), want), desc)
-      elif how == 'kw' and got is not sentinel or how == 'kw_none' and got is not None:
+      elif how not in ('none', 'kw_none') and got is not sentinel or how == 'kw_none' and got is not None:
         res.violation('caller_value_lost', '%r: received %r' % (desc, got), desc)
       elif how != 'none':
         res.w('not_called_when_keyword' if how.startswith('kw') else 'not_called_when_positional')
@@ -485,6 +552,10 @@ def gen(tier):
   yield 'SAMENAME', 1, None
   yield 'OVERRIDE', 'strict', None
   yield 'OVERRIDE', 'kwonly', None
+  yield 'OVERRIDE', 'plain', None
+  for ev in (True, False):
+    for amb in (None, 'red'):
+      yield 'DYNREREG', ev, amb
   for name in DICTKEY_CASES:
     for ai in range(len(AMBIENT)):
       yield 'DICTKEY', name, ai
@@ -529,6 +600,9 @@ def run_shard(i, tier):
     if sname == 'SAMENAME':
       run_same_name(rscope, res)
       continue
+    if sname == 'DYNREREG':
+      run_dyn_rereg(rscope, seq, res)
+      continue
     if sname == 'REBIND':
       run_rebind(rscope[0], rscope[1], seq, res)
       continue
@@ -552,6 +626,10 @@ def replay(desc):
     return res
   if desc[0] == 'same_name':
     run_same_name(desc[1], res)
+    harness.hard_reset()
+    return res
+  if desc[0] == 'dyn_rereg':
+    run_dyn_rereg(desc[1], desc[2], res)
     harness.hard_reset()
     return res
   if desc[0] == 'rebind':
